@@ -80,7 +80,10 @@ class AbbreviationAttribute:
         "Indicates that current attribute was repeated multiple times in a row"
 
     def copy(self):
-        return AbbreviationAttribute(self.name, self.value, self.value_type, self.boolean, self.implied, self.multiple)
+        # Value is a list of tokens which is updated in place when attributes
+        # are merged: a copy must own its list
+        value = self.value[:] if isinstance(self.value, list) else self.value
+        return AbbreviationAttribute(self.name, value, self.value_type, self.boolean, self.implied, self.multiple)
 
 
 def convert(abbr: TokenGroup, params={}):
